@@ -91,7 +91,7 @@ func props() map[string]*PropSpec {
 		MustHit: []string{"MultiESDTNFTTransfer/dst/ok", "ESDTNFTTransfer/dst/ok", "ESDTTransfer/dst/ok"},
 		Faults:  "reorder/delay, refusal+refund"})
 	add(&PropSpec{ID: "C11", Level: "exploration", Steps: [2]int{30, 120}, QuickN: 24000, ThorN: 1200000,
-		Profile: base().With(map[string]float64{"tx:adversarial": 40, "tx:forged": 10, "sc:setrole-again": 3, "sc:unsetrole": 5, "p:adv-amount": 0.5, "p:adv-token": 0.3, "p:adv-dest": 0.25, "p:adv-gas": 0.3}),
+		Profile: base().With(map[string]float64{"tx:adversarial": 40, "tx:forged": 10, "sc:setrole-again": 3, "sc:unsetrole": 5, "sc:freeze": 8, "tx:adduri": 8, "tx:updattr": 8, "tx:addqty": 6, "p:adv-amount": 0.5, "p:adv-token": 0.3, "p:adv-dest": 0.25, "p:adv-gas": 0.3}),
 		Rule:    "seeded histories dominated by adversarial transactions (0..12 arguments from the adversarial pools) against states reached through real calls, with the transaction-reachable account-presence patterns and protocol-generated destination-side inputs; every call runs under recover with result-shape and allocation checks",
 		MustHit: []string{"MultiESDTNFTTransfer/snd/err", "ESDTNFTTransfer/snd/err"},
 		Faults:  "reorder/delay, dependency failure+rollback"})
